@@ -126,6 +126,32 @@ fn main() {
                 emit(&Case { lim: None, det: false, input: String::new(), env: vec![], prog: p }, &mut w);
             }
         }
+        // stack matching against partly matching inputs: two or three different literals pushed, then POP_ALL / PEEK_ALL /
+        // PEEK[..] / POP / PEEK as an alternative, under opt / rep / look-ahead or bare, on every prefix of the stack
+        // contents (both orders) optionally followed by one more char: "a failing primitive does not move"
+        "stackmatch" => {
+            let lits = ["a", "b", "ab", "é"];
+            let ops: Vec<Prog> = vec![Prog::MPop, Prog::MPeek, Prog::Pop, Prog::Peek, Prog::Slice(0, None, true), Prog::Slice(0, None, false),
+                Prog::Slice(-2, None, true), Prog::Slice(0, Some(-1), false), Prog::Slice(1, Some(3), true)];
+            let wraps: Vec<fn(Prog) -> Prog> = vec![|p| p, |p| Prog::Else(Box::new(p), Box::new(Prog::Str("a".into()))), |p| Prog::Opt(Box::new(p)),
+                |p| Prog::Rep(Box::new(p)), |p| Prog::Look(false, Box::new(p)), |p| Prog::Look(true, Box::new(p)),
+                |p| Prog::Else(Box::new(Prog::Rule(1, Box::new(p))), Box::new(Prog::Rule(2, Box::new(Prog::Skip(1))))),
+                |p| Prog::Then(Box::new(Prog::Opt(Box::new(p))), Box::new(Prog::Cls(vec![('\0', '\u{10ffff}')])))];
+            for (i, l1) in lits.iter().enumerate() { for (j, l2) in lits.iter().enumerate() { for l3 in ["", "b"] {
+                if i == j { continue; }
+                let mut texts: Vec<String> = vec![format!("{}{}{}", l3, l2, l1), format!("{}{}{}", l1, l2, l3), format!("{}{}", l2, l1), format!("{}{}", l1, l2)];
+                texts.dedup();
+                let mut inputs: Vec<String> = vec![];
+                for t in &texts { let cs: Vec<char> = t.chars().collect(); for k in 0..=cs.len() { let pre: String = cs[..k].iter().collect(); inputs.push(pre.clone()); inputs.push(format!("{}b", pre)); } }
+                inputs.sort(); inputs.dedup();
+                for op in &ops { for w0 in &wraps {
+                    let mut p = w0(op.clone());
+                    if !l3.is_empty() { p = Prog::Then(Box::new(Prog::PushLit(l3.to_string())), Box::new(p)); }
+                    p = Prog::Then(Box::new(Prog::PushLit(l1.to_string())), Box::new(Prog::Then(Box::new(Prog::PushLit(l2.to_string())), Box::new(p))));
+                    for input in &inputs { emit(&Case { lim: None, det: false, input: input.clone(), env: vec![], prog: p.clone() }, &mut w); }
+                } }
+            } } }
+        }
         // exhaustive small trees x all short inputs
         "small" => {
             let maxlen = arg_u64(2, 3) as usize;
@@ -159,7 +185,7 @@ fn main() {
                 emit(&Case { lim: None, det: false, input: input.clone(), env: vec![], prog: p.clone() }, &mut w);
             } }
         }
-        _ => { eprintln!("usage: comb one CASE | random COUNT SEED [DEPTH] | stack COUNT SEED | small MAXLEN"); std::process::exit(2); }
+        _ => { eprintln!("usage: comb one CASE | random COUNT SEED [DEPTH] | stack COUNT SEED | stackmatch | small MAXLEN"); std::process::exit(2); }
     }
     writeln!(w, "#SUMMARY\tevaluations={}\tdistinct_nontrivial={}\tok={}\tpanics={}\tdiverged={}", n, nontriv, oks, panics, diverged).unwrap();
 }
